@@ -14,7 +14,7 @@ for n in sorted(os.listdir(sd)):
 with open(os.path.join(sd, "RESULTS.md"), "w") as f:
     f.write("# Seeded breaking changes and what the broken property's quick check reports\n\n")
     f.write("Written by tools/seed_results.py from the runs of tools/par_matrix.py / tools/seed_matrix.py (%d changes, each confirmed in a "
-            "scratch worktree by tools/confirm_seed.py; rounds: plain, -r2, -r3).\n\n" % len(rows))
+            "scratch worktree by tools/confirm_seed.py; rounds: plain, -r2 ... -r5, and C13-real-1 for the guard-off build).\n\n" % len(rows))
     f.write("| seeded change | breaks | outcome of that property's quick check | first replay / broken obligation |\n|---|---|---|---|\n")
     for r in rows:
         f.write("| %s | %s | %s | `%s` |\n" % r)
